@@ -14,12 +14,14 @@ def cases(ctx, rng):
         kind = rng.choice(["plain", "sharded", "sharded", "stacked"])
         nshards = rng.choice([2, 3, 4, 8])
         cap = rng.choice([1, 2, 3, 6, 1000])
+        # totals that the shard count does not divide: each shard's capacity is the quotient rounded UP
+        total = cap * nshards - (rng.below(nshards) if rng.below(2) else 0)
         if kind == "plain":
             w, readers = ("plain", cap), ()
         elif kind == "sharded":
-            w, readers = ("sharded", nshards, cap * nshards), ()
+            w, readers = ("sharded", nshards, total), ()
         else:
-            w = rng.choice([("plain", cap), ("sharded", nshards, cap * nshards)])
+            w = rng.choice([("plain", cap), ("sharded", nshards, total)])
             readers = rng.choice([(("plain",),), (("sharded", 3),), (("plain",), ("sharded", 2))])
         handles = 1 + rng.below(3)
         keys = H.keyset(rng, 4 + rng.below(5), nshards)
